@@ -9,7 +9,7 @@ import vlib
 from props import fam_mtz as F
 
 
-MANIFEST = {'technique': 'Coq proof (row-buffer invariant for all recipes and number lengths, spec tables inverse by vm_compute) + byte-exact differential check of the loop body + conversion round-trip oracle on gemmi', 'text': 'Theorems: the 256-byte row formatter never stores outside its buffer for any recipe (min_width <= 32) and formatted numbers of any length (snapshot behaviour refuted with witnesses incl. 1e30 under the default %.3f); every tag mapped by the two default MTZ->CIF specs regenerated from /repo is mapped back by the CIF->MTZ table to the same type and label, status codes o/f -> 1/0. Loop body compared byte-exactly with the extracted machine (incl. .30f/.60f/.99f formats); oracle on gemmi: MtzToCif::write_cif -> read -> as_refln_blocks -> CifToMtz preserves hkl set/order, cell, space group, mapped values to printed precision, NaN stays missing, free-flag membership, rectangular valid loop, x options (skip_empty, trim, less_anomalous, free flag value, custom spec lines).', 'note': 'Trusted: Coq kernel; translator gen/dump_mtzspec.cpp; extraction; harness. No axioms. Merged files only; loop_rectangular is oracle-only.'}
+MANIFEST = {'technique': 'Coq proof (recipe model: column selection, well-formed recipes, end-to-end type preservation for the default specification; row-buffer invariant for all recipes and number lengths; spec tables inverse by vm_compute) + exact differential check of the recipe and byte-exact check of the loop body + conversion round-trip oracle on gemmi', 'text': 'Oracles on gemmi cover merged files (every label of the default specifications incl. two alternatives of one group in either file order, custom formats, any tabulated space group the PDB-style name identifies, all converter options) and unmerged files (1-4 sweeps, 1-2 datasets: indices, I/SIGI, batch-number mapping injective and spacing-preserving, one batch header per number); get_refln_block = as_refln_blocks. RECIPE (Mtz/Recipe.v = find_column_index, check_format, parse_spec_line, prepare_recipe; compared with gemmi on ~4000 specifications per run, default and adversarial custom lines): a line A|B|C selects the first alternative in spec order that is a label of the file and the first such column in file order; every returned recipe, for every list of lines, options and file, is non-empty, copies only existing columns or the five variables, has widths <= 32 (the hypothesis of the row-buffer theorem), has no repeated tag, contains H K L; every entry comes from a line with the requested type; for the default merged specification and EVERY file each mapped column is written under a tag that the default mmCIF->MTZ table maps back to a column of the same MTZ type (end to end over both tables, regenerated from /repo as raw text). Two defects found by this model and repaired (repeated index_h tag; status format on a variable read columns[-2]). Theorems: the 256-byte row formatter never stores outside its buffer for any recipe (min_width <= 32) and formatted numbers of any length (snapshot behaviour refuted with witnesses incl. 1e30 under the default %.3f); every tag mapped by the two default MTZ->CIF specs regenerated from /repo is mapped back by the CIF->MTZ table to the same type and label, status codes o/f -> 1/0. Loop body compared byte-exactly with the extracted machine (incl. .30f/.60f/.99f formats); oracle on gemmi: MtzToCif::write_cif -> read -> as_refln_blocks -> CifToMtz preserves hkl set/order, cell, space group, mapped values to printed precision, NaN stays missing, free-flag membership, rectangular valid loop, x options (skip_empty, trim, less_anomalous, free flag value, custom spec lines).', 'note': 'Trusted: Coq kernel; translator gen/dump_mtzspec.cpp; extraction; harness. No axioms. Merged files only; loop_rectangular is oracle-only.'}
 
 def gen_rows_case(rng):
     """rows: only float columns with custom formats (the model predicts every byte of the loop body)."""
@@ -28,6 +28,91 @@ def gen_rows_case(rng):
                             'less_anom': 0, 'nrefl': rng.choice([1, 2, 5, 9, 40])})
 
 
+RCP_POOL = [('FP', 'F'), ('SIGFP', 'Q'), ('F', 'F'), ('SIGF', 'Q'), ('I', 'J'), ('SIGI', 'Q'), ('IMEAN', 'J'), ('SIGIMEAN', 'Q'),
+            ('FC', 'F'), ('PHIC', 'P'), ('FreeR_flag', 'I'), ('FREE', 'I'), ('DP', 'D'), ('SIGDP', 'Q'), ('I(+)', 'K'),
+            ('SIGI(+)', 'M'), ('I(-)', 'K'), ('SIGI(-)', 'M'), ('F(+)', 'G'), ('SIGF(+)', 'L'), ('F(-)', 'G'), ('SIGF(-)', 'L'),
+            ('FOM', 'W'), ('HLA', 'A'), ('X', 'R'), ('FWT', 'F'), ('PHWT', 'P'), ('2FOFCWT', 'F'), ('SIGX', 'Q')]
+RCP_TAGS = ['F_meas_au', 'F_meas_sigma_au', 'intensity_meas', 'intensity_sigma', 'status', 'index_h', 'index_k', 'index_l',
+            'pdbx_r_free_flag', 'x', 'a.b', '_x', 'F_calc', 'phase_calc', 'fom', 'pdbx_F_plus', 'pdbx_F_minus', 'pdbx_I_plus',
+            'pdbx_I_minus', 'pdbx_anom_difference', 'y1', 'y2', 'y3', 'y4']
+RCP_FMTS = ['', '', '', '', 'S', 'g', '.5g', '.3f', '12.4f', '_10.2f', '-12.5e', '+.4g', '32.3f', '33.3f', '99g', '.15f', '#g',
+            '20.12e', 'e', 'E', 'G', 'd', '%g', 'ff', '1.2.3f', '5', '.f', '12.f', 'x', 'S1', '_', '100f', '1f', '05.1f', 'SS', 's']
+
+
+def gen_recipe_case(rng):
+    """recipe: the columns a specification selects - aimed at the case splits of the model (Mtz/Recipe.v): alternatives
+    present/absent in either order, duplicated labels, {prev}, '?'/'&' groups that are kept or dropped, variables,
+    wrong / '*' / malformed types, bad tags, duplicated tags (also with the inserted index_h/k/l), format words."""
+    cols = []
+    for _ in range(rng.choice([0, 1, 2, 3, 4, 5, 6, 8, 10])):
+        lab, ty = rng.choice(RCP_POOL)
+        if rng.random() < 0.07:
+            ty = rng.choice('FQJKMGLDPWAIRH')
+        cols.append((lab, ty))
+    present = ['H', 'K', 'L'] + [l for l, _ in cols]
+    tyof = dict([('H', 'H'), ('K', 'H'), ('L', 'H')] + list(reversed(cols)))
+    spec = []
+    mis = rng.choice([0.05, 0.1, 0.25, 1.0])     # how often a line is made to fail (mostly-valid cases dominate)
+    good_fmts = ['', '', '', '', 'S', 'g', '.5g', '.3f', '12.4f', '_10.2f', '-12.5e', '+.4g', '32.3f', '.15f', '#g', '20.12e', 'e', 'E', 'G', '1f', '05.1f']
+    good_tags = [t for t in RCP_TAGS if t not in ('a.b', '_x')]
+    used_tags = set()
+    if rng.random() > 0.2:
+        if rng.random() < 0.7:
+            spec = ['H H index_h', 'K H index_k', 'L H index_l']
+            if rng.random() < 0.3:
+                del spec[rng.randrange(3)]
+        for _ in range(rng.randint(1, 8)):
+            r = rng.random()
+            absent = rng.choice(['NOPE', 'Fx', 'ZZ', 'i', 'fp'])
+            if r < 0.30:
+                col = rng.choice(present)
+            elif r < 0.55:
+                alts = [rng.choice(present + [absent, absent]) for _ in range(rng.randint(2, 4))]
+                col = '|'.join(alts)
+            elif r < 0.67:
+                col = rng.choice(['SIG{prev}', 'SIG{prev}', '{prev}', 'X{prev}|SIG{prev}', 'SIG{prev}|SIG{prev}(+)', '{prev', 'SIG{pre}'])
+            elif r < 0.77:
+                col = absent
+            elif r < 0.90:
+                col = rng.choice(['$.', '$?', '$.', '$?', '$counter', '$dataset', '$image', '$counterX', '$x', '$', '$..', '$?x']
+                                 if rng.random() < mis else ['$.', '$?'])
+            else:
+                col = rng.choice(['', '|', 'FP|', '|FP', 'H', 'K', 'L'])
+            first = next((a for a in col.split('|') if a in tyof), None)
+            r = rng.random()
+            if col.startswith('$'):
+                ty = None
+            elif r < 0.72 and first:
+                ty = tyof[first]
+            elif r < 0.82 or rng.random() > mis:
+                ty = '*'
+            elif r < 0.94:
+                ty = rng.choice('FQJKMGLDPWAIRH')
+            else:
+                ty = rng.choice(['FF', '', '**'])
+            if rng.random() < mis:
+                tag = rng.choice(RCP_TAGS)
+                fmt = rng.choice(RCP_FMTS)
+            else:
+                tag = rng.choice([t for t in good_tags if t not in used_tags] or good_tags)
+                fmt = rng.choice(good_fmts)
+                if fmt == 'S' and col.startswith('$'):
+                    fmt = ''
+            used_tags.add(tag)
+            sep = lambda: rng.choice([' ', ' ', ' ', '  ', '\t', ' \t '])
+            line = rng.choice(['', '', '?', '?', '&', '&', ' ', '? ', '& '] if rng.random() < mis or first or col.startswith('$')
+                              else ['?', '?', '&', '? ', '& ']) + col
+            for wd in ([ty] if ty is not None else []) + [tag, fmt]:
+                if wd != '' or rng.random() < 0.5:
+                    line += sep() + wd
+            if rng.random() < 0.08:
+                line += rng.choice(['\r', ' extra', '\t', ' # c', '\n'])
+            spec.append(line)
+    return F.gen_conv(rng, {'cols': cols, 'spec': spec if spec else [], 'skip_empty': 0, 'trim': 0, 'nrefl': rng.choice([0, 1, 2]),
+                            'mode': rng.choice([0, 1]), 'less_anom': rng.choice([0, 0, 1, 2]), 'free': -1, 'nosg': True,
+                            'exact_spec': True})
+
+
 def run(chk):
     quick = chk.tier == 'quick'
     rng = random.Random(chk.seed)
@@ -35,7 +120,7 @@ def run(chk):
                     'harness/h_mtz.cpp + h_mtz_conv.hpp built from the repo with ASan+UBSan (the oracle re-derives the '
                     'expected rows, free-flag rule and per-tag format from the spec lines)',
                     'stb_sprintf: the text of each number under its format is an input of the row-buffer model']
-    chk.assumptions += ['merged files only (the unmerged path needs batch headers/sweeps and is not generated)',
+    chk.assumptions += ['unmerged files: P 21 21 21, indices inside the ASU (ISYM 1), columns I/SIGI; the merged path carries the variety of labels, options and space groups',
                         'the row-buffer theorem is about the buffer discipline; the texts of numbers are abstract',
                         '"to the precision of the printed format" is checked as: the value read back equals the float '
                         'obtained by re-reading the printed text',
@@ -54,8 +139,16 @@ def run(chk):
         lines.append('o_conv\t' + F.gen_conv(rng, {'cols': [('FP', 'F'), ('SIGFP', 'Q')], 'mode': 2, 'nrefl': 40,
                                                    'spec': ['H H index_h', 'K H index_k', 'L H index_l',
                                                             'FP F F_meas_au ' + f, 'SIGFP Q F_meas_sigma_au ' + f]}))
+    # unmerged files: 1-4 sweeps (runs of consecutive batch numbers), 1-2 datasets
+    for nsw in (1, 2, 3, 4):
+        for _ in range(3 if quick else 60):
+            lines.append('o_unm\t%d %d %d %d %d' % (nsw, rng.randint(1, 5), rng.choice([1, 7, 40, 150]), rng.getrandbits(40), rng.randint(0, 1)))
+    for i in range(2 * n):
+        lines.append('recipe\t' + gen_recipe_case(rng))
     for i in range(n):
         lines.append('o_conv\t' + F.gen_conv(rng))
+        if i % 2 == 0:
+            lines.append('recipe\t' + lines[-1].split('\t', 1)[1])
         if i % 3 == 0:
             lines.append('rows\t' + gen_rows_case(rng))
     res = vlib.correspond(chk, h, d, lines, env=F.SAN_ENV)
@@ -68,12 +161,13 @@ def run(chk):
         chk.case(p[0] + ' ' + p[1], nt,
                  sample={'cmd': p[0], 'args': p[1][:300], 'impl': p[2][:120]} if chk.evaluations % 499 == 0 else None,
                  bucket='%s:%s%s' % (p[0], 'custom-spec' if w[-1] != '0' else 'default-spec',
-                                     ':' + p[2] if p[2] in ('EXC', 'skip') else ''))
+                                     ':' + p[2] if p[2] in ('EXC', 'skip', 'FAIL') else
+                                     (':%d-tags' % (p[2].split()[1].count(',') + 1) if p[0] == 'recipe' and p[2].startswith('R ') else '')))
     for (cmd, args, impl, model) in res['mismatches']:
         if impl in ('CRASH', 'TIMEOUT'):
             continue
         found.setdefault(('correspondence', cmd), []).append(
-            (len(args), 'row-buffer model disagrees with gemmi on command ' + cmd,
+            (len(args), 'extracted model (Mtz/RowBuf.v, Mtz/Recipe.v) disagrees with gemmi on command ' + cmd,
              'input=%s impl=%s model=%s' % (args[:2000], impl[:3000], model[:3000]), cmd + '\t' + args))
     for (cmd, args, r) in res['oracle_fail']:
         if r in ('CRASH', 'TIMEOUT'):
